@@ -11,6 +11,7 @@ import (
 	"fmt"
 	"os"
 	"strings"
+	"time"
 
 	"verif/checks"
 	"verif/mon"
@@ -79,6 +80,16 @@ func child(args []string) {
 		}
 	}
 	c := mon.NewCtx(*id, *tier, *seed, *shard, *nshards, *only, *out, cfg)
+	if ck.HangIsViolation {
+		limit := 150 * time.Second
+		if *tier == "thorough" {
+			limit = 1200 * time.Second
+		}
+		if v := ck.CaseLimitS[*tier]; v > 0 {
+			limit = time.Duration(v) * time.Second
+		}
+		c.StartCaseWatchdog(limit)
+	}
 	ck.Run(c)
 	if err := c.Finish(); err != nil {
 		fmt.Fprintln(os.Stderr, "cannot write result:", err)
